@@ -276,7 +276,7 @@ impl<'a> Dfa<'a> {
         }
 
         for equivalence_class in p.iter() {
-            let old_source_state = *equivalence_class.iter().next().unwrap();
+            let old_source_state = *equivalence_class.iter().min().unwrap();
             let new_source_state = state_mappings.get(&old_source_state).unwrap();
 
             for old_target_state in self.graph.neighbors(old_source_state) {
